@@ -539,12 +539,18 @@ impl SemFam {
             }
             SemOp::Cancel | SemOp::CancelShared => {
                 let id = if matches!(op, SemOp::Cancel) { t } else { SHARED };
-                if !n.live.contains(&id) {
-                    return vec![MStep::Done(n, SemRes::Nothing)];
+                if phase == 0 {
+                    if !n.live.contains(&id) {
+                        return vec![MStep::Done(n, SemRes::Nothing)];
+                    }
+                    // the future leaves its slot first; dropping a *granted* acquisition then gives
+                    // the permits back through `release`, which has a scheduling point of its own
+                    n.live.retain(|x| *x != id);
+                    vec![MStep::Cont(n, 1)]
+                } else {
+                    SemFam::cancel(&mut n, id);
+                    vec![MStep::Done(n, SemRes::Unit)]
                 }
-                n.live.retain(|x| *x != id);
-                SemFam::cancel(&mut n, id);
-                vec![MStep::Done(n, SemRes::Unit)]
             }
         }
     }
